@@ -114,7 +114,7 @@ def job_boost(res, L_, v):
                         else:
                             got = p.value
                             want = S.oracle_boost_term(parts, v, error, eci, is_sa, L, levels_int)
-                            gt = got.t if isinstance(got, SNum) else z3.IntVal(got)
+                            gt = common.int_term(got)
                             bt.holds('boost==highest-fitting-ISO-level', label, gt == want)
                         bt.run(to_input)
     res.sample({'case': res.name, 'symbolic': 'L (payload bits), unbounded', 'obligation': 'boost_error_level == highest ISO level >= request whose capacity >= overhead + L'})
@@ -220,7 +220,7 @@ def job_glue(res, L_, parts):
                             bt = Batch(res, p.pc)
                             if p.status == 'ok':
                                 _, err_used, ver_used, b_used = p.value
-                                vu = ver_used.t if isinstance(ver_used, SNum) else z3.IntVal(ver_used)
+                                vu = common.int_term(ver_used)
                                 lv_default = S.level_const(consts, req or 'L')
                                 # level handed to _encode: request, else L; None only for M1 (and only if nothing was requested)
                                 if err_used is None:
